@@ -56,6 +56,31 @@ def pki():
 
     ee_cert = ee('src-sign', ee_key, SRC_NODE, 12)
     other_cert = ee('other-sign', other_key, 'dtn://someone-else/', 13)
+
+    def variant(name, key, serial, san, issuer_key=ca_key, issuer_name=ca_name):
+        builder = (x509.CertificateBuilder().subject_name(x509.Name([x509.NameAttribute(x509.oid.NameOID.COMMON_NAME, name)]))
+                   .issuer_name(issuer_name).public_key(key.public_key()).serial_number(serial).not_valid_before(start).not_valid_after(end)
+                   .add_extension(x509.BasicConstraints(ca=False, path_length=None), critical=True)
+                   .add_extension(x509.KeyUsage(digital_signature=True, content_commitment=False, key_encipherment=False, data_encipherment=False,
+                                                key_agreement=False, key_cert_sign=False, crl_sign=False, encipher_only=False, decipher_only=False), critical=False)
+                   .add_extension(x509.ExtendedKeyUsage([x509.oid.ObjectIdentifier('1.3.6.1.5.5.7.3.35')]), critical=False)
+                   .add_extension(x509.SubjectKeyIdentifier.from_public_key(key.public_key()), critical=False)
+                   .add_extension(x509.AuthorityKeyIdentifier.from_issuer_public_key(issuer_key.public_key()), critical=False))
+        if san is not None:
+            builder = builder.add_extension(x509.SubjectAlternativeName(san), critical=False)
+        return builder.sign(issuer_key, hashes.SHA256())
+
+    variants = {}
+    for vname, san in (('nosan', None), ('dnsonly', [x509.DNSName('src-node.example')])):
+        vkey = ec.generate_private_key(ec.SECP256R1())
+        variants[vname] = (variant('v-' + vname, vkey, 20 + len(variants), san), vkey)
+    rogue_key = ec.generate_private_key(ec.SECP256R1())
+    rogue_name = x509.Name([x509.NameAttribute(x509.oid.NameOID.COMMON_NAME, 'rogue CA')])
+    vkey = ec.generate_private_key(ec.SECP256R1())
+    eid_san = [x509.OtherName(x509.oid.ObjectIdentifier(cb.OID_BUNDLE_EID), bytes([0x16, len(SRC_NODE)]) + SRC_NODE.encode('ascii'))]
+    variants['untrusted'] = (variant('v-untrusted', vkey, 30, eid_san, issuer_key=rogue_key, issuer_name=rogue_name), vkey)
+    variants['good'] = (ee_cert, ee_key)
+    variants['othernode'] = (other_cert, other_key)
     paths = {}
     tag = str(os.getpid())
     for name, obj in (('ca.crt', ca_cert), ('ee.crt', ee_cert)):
@@ -67,7 +92,7 @@ def pki():
     with open(path, 'wb') as out:
         out.write(ee_key.private_bytes(serialization.Encoding.PEM, serialization.PrivateFormat.PKCS8, serialization.NoEncryption()))
     paths['ee.key'] = path
-    _PKI.update(ca_cert=ca_cert, ee_cert=ee_cert, ee_key=ee_key, other_cert=other_cert, other_key=other_key, paths=paths,
+    _PKI.update(ca_cert=ca_cert, ee_cert=ee_cert, ee_key=ee_key, other_cert=other_cert, other_key=other_key, paths=paths, variants=variants,
                 ee_der=ee_cert.public_bytes(serialization.Encoding.DER), other_der=other_cert.public_bytes(serialization.Encoding.DER))
     return _PKI
 
